@@ -130,6 +130,11 @@ func sameFloat(a float64, b float64) bool { return a == b || (a != a && b != b) 
     ensures @polls-the-context ghost(polls) >= old(ghost(polls))+1
 @*/
 
+// (the operator of an analyzed assignment is one of the assignment operators)
+/*@ func (self *Interpreter) assignExpression
+    assumes @well-formed-tree node.Operator <= pAst.BitXorAssignOperatorKind
+@*/
+
 /*@ func (self *Interpreter) infixHelper
     serves C02, C04
     wrap int64
